@@ -31,14 +31,18 @@ func vLargeBatch(prefix, term string, n int) []index.Document {
 // Advance across chunk boundaries. (Concrete data; the deleted block and the probe positions are symbolic.)
 func H06_large() {
 	nLarge := vParam("nLarge", 1100)
+	// (choices first: a shard that does not own the combination gives up before the expensive builds)
+	dropChoice := vChoice("dropBlock", vParam("nBlocks", 6))
+	dropInSmall := vBool("dropInSmall")
+	probeChoice := vChoice("probe", vParam("nProbes", 7))
 	var z ZapPlugin
 	s0, _, err := z.newWithChunkMode(vLargeBatch("a", "cold", 8), DefaultChunkMode)
 	vAssert(err == nil, "build0")
 	s1, _, err := z.newWithChunkMode(vLargeBatch("b", "hot", nLarge), DefaultChunkMode)
 	vAssert(err == nil, "build1")
 	// delete the first k documents of the large segment
-	ks := []int{0, 1, 76, 200, nLarge - 1024, nLarge - 1023}
-	k := ks[vChoice("dropBlock", len(ks))]
+	ks := []int{200, 0, nLarge - 1024, nLarge - 1023, 1, 76}
+	k := ks[dropChoice]
 	if k < 0 {
 		k = 0
 	}
@@ -47,7 +51,7 @@ func H06_large() {
 		d1.Add(uint32(d))
 	}
 	var d0 *roaring.Bitmap
-	if vBool("dropInSmall") {
+	if dropInSmall {
 		d0 = roaring.New()
 		d0.Add(3)
 	}
@@ -74,8 +78,8 @@ func H06_large() {
 	p, err := it.Next()
 	vAssert(err == nil && p == nil, "end")
 	// Advance to probe positions around the chunk boundaries the reader derives
-	probes := []int{k, k + 1, k + survivors/2 - 1, k + survivors/2, k + survivors/2 + 1, nLarge - 2, nLarge - 1}
-	d := probes[vChoice("probe", len(probes))]
+	probes := []int{k + survivors/2, k + survivors/2 - 1, nLarge - 1, k, k + 1, k + survivors/2 + 1, nLarge - 2}
+	d := probes[probeChoice]
 	if d < k {
 		d = k
 	}
